@@ -608,7 +608,7 @@ impl CodeGen {
                             (_, _) => {
                                 self.emit_mov_r64_rm64(Reg::scr0(), self.tmp_param(tmp1));
                                 self.emit_add_rm64_i32(RegMem::Reg(Reg::scr0()), imm);
-                                self.emit_add_rm64_r64(self.tmp_param(tmp0), Reg::scr0());
+                                self.emit_mov_rm64_r64(self.tmp_param(tmp0), Reg::scr0());
                             }
                         }
                     } else if let Some(reg0) = Reg::tmp(tmp0) {
